@@ -200,6 +200,8 @@ func (r *replRun) ready() bool {
 	return st == models.ReplicatorReadyState
 }
 
+var replFirstTail int // index of the first tail-loss history
+
 func replHistory(rec *trace.Recorder, dir string, rng *rand.Rand, steps int, tailLoss bool, h int, sum *trace.Summary) {
 	faults := &replFaults{}
 	fol := &followerNode{dir: filepath.Join(dir, "follower")}
@@ -215,12 +217,57 @@ func replHistory(rec *trace.Recorder, dir string, rng *rand.Rand, steps int, tai
 	rec.Reset(trace.F{"mode": "repl", "h": h, "tailloss": tailLoss})
 	run.proj()
 	script := []string{}
+	// every other tail-loss history keeps the follower caught up, so that the leader loses positions the
+	// follower already holds (the handshake branch "follower ahead of the leader's append index")
+	roundP := 55
+	if tailLoss && h%2 == 1 {
+		roundP = 80
+	}
+	// the first tail-loss histories start with a script: the follower is caught up, then the leader loses 2, 3,
+	// 4 positions the follower holds, handshakes, appends and replicates again
+	var forced []string
+	if ti := h - replFirstTail; tailLoss && ti < 3 {
+		forced = []string{"hs", "append", "append", "append", "append", "append", "append", "round", "round", "round", "round", "round", "round",
+			fmt.Sprintf("losetail:%d", 2+ti), "hs", "append", "append", "round", "round", "round"}
+	}
 	for i := 0; i < steps; i++ {
 		*faults = replFaults{}
 		c := rng.Intn(100)
 		pending := run.llog.Queue().AppendedSeq() > func() int64 { g, _ := run.llog.GetOrCreateConsumerGroup("2"); return g.ConsumedSeq() }()
-		switch {
-		case !run.ready() && c < 70:
+		// the step: scripted (forced) or chosen at random
+		op := ""
+		loseK := int64(1 + rng.Intn(3))
+		if len(forced) > 0 {
+			op, forced = forced[0], forced[1:]
+			if strings.HasPrefix(op, "losetail:") {
+				loseK = int64(op[len("losetail:")] - '0')
+				op = "losetail"
+			}
+			if (op == "hs" && run.ready()) || (op == "round" && (!run.ready() || !pending)) {
+				continue
+			}
+		} else {
+			switch {
+			case !run.ready() && c < 70:
+				op = "hs"
+			case run.ready() && pending && c < roundP:
+				op = "round"
+			case c < 80:
+				op = "append"
+			case c < 84:
+				op = "frestart"
+			case c < 87:
+				op = "flose"
+			case c < 91:
+				op = "gc"
+			case c < 95:
+				op = "lrestart"
+			case tailLoss:
+				op = "losetail"
+			}
+		}
+		switch op {
+		case "hs":
 			f := "none"
 			switch rng.Intn(12) {
 			case 0:
@@ -233,7 +280,7 @@ func replHistory(rec *trace.Recorder, dir string, rng *rand.Rand, steps int, tai
 			rec.Emit("Handshake", trace.F{"rpcfail": f})
 			replica.VerifReplicaHandshake(run.lpart, 2)
 			script = append(script, "hs:"+f)
-		case run.ready() && pending && c < 55:
+		case "round":
 			f := "none"
 			switch rng.Intn(10) {
 			case 0:
@@ -244,30 +291,30 @@ func replHistory(rec *trace.Recorder, dir string, rng *rand.Rand, steps int, tai
 			rec.Emit("Round", trace.F{"fault": f})
 			replica.VerifReplicaRound(run.lpart, 2)
 			script = append(script, "round:"+f)
-		case c < 80:
+		case "append":
 			run.nextID++
 			rec.Emit("Append", trace.F{"id": run.nextID})
 			if err := run.lpart.WriteLog(replPayload(run.nextID)); err != nil {
 				rec.Emit("Error", trace.F{"err": err.Error()})
 			}
 			script = append(script, "append")
-		case c < 84:
+		case "frestart":
 			rec.Emit("FollowerRestart", trace.F{})
 			fol.log.Close()
 			_ = fol.open()
 			script = append(script, "frestart")
-		case c < 87:
+		case "flose":
 			rec.Emit("FollowerLoseLog", trace.F{})
 			fol.log.Close()
 			_ = os.RemoveAll(fol.dir)
 			_ = fol.open()
 			script = append(script, "flose")
-		case c < 91:
+		case "gc":
 			rec.Emit("LeaderGC", trace.F{})
 			run.llog.Sync()
 			run.llog.Queue().GC()
 			script = append(script, "gc")
-		case c < 95:
+		case "lrestart":
 			rec.Emit("LeaderRestart", trace.F{})
 			run.lpart.Stop()
 			_ = run.lpart.Close()
@@ -276,9 +323,9 @@ func replHistory(rec *trace.Recorder, dir string, rng *rand.Rand, steps int, tai
 				return
 			}
 			script = append(script, "lrestart")
-		case tailLoss:
+		case "losetail":
 			lq := run.llog.Queue()
-			k := int64(1 + rng.Intn(2))
+			k := loseK
 			if lq.AppendedSeq()-k < lq.AcknowledgedSeq() || lq.AppendedSeq()-k < -1 {
 				continue
 			}
@@ -334,6 +381,7 @@ func replMain(args []string) int {
 	sum := &trace.Summary{Module: "Replication", Extra: map[string]any{}}
 	for h := 0; h < *nh+*nt; h++ {
 		d := filepath.Join(*scratch, fmt.Sprintf("r%d", h))
+		replFirstTail = *nh
 		replHistory(rec, d, rand.New(rand.NewSource(rng.Int63())), *steps, h >= *nh, h, sum)
 		os.RemoveAll(d)
 	}
